@@ -55,7 +55,58 @@ type heldSet struct {
 // named rec: the types are distinct, their names (reflect.Type.String()) and
 // field names are not.  What Unmarshal stores depends on the type's own tags
 // only, whatever was unmarshaled before.
+// checkNamedTarget unmarshals the element behind cur into the k-th of the
+// same-named target types and compares every field with what its own tag
+// evaluates to from that element.
+func checkNamedTarget(cur store.Cursor, k int) error {
+	target := c13Targets[k%len(c13Targets)]()
+	var uerr error
+	func() {
+		defer func() {
+			if r := recover(); r != nil {
+				uerr = fmt.Errorf("panic: %v", r)
+			}
+		}()
+		uerr = xsel.Unmarshal(xsel.NodeSet{cur}, target)
+	}()
+	if uerr != nil {
+		return fmt.Errorf("Unmarshal into %T (#%d) failed: %v", target, k%len(c13Targets), uerr)
+	}
+	tv := reflect.ValueOf(target).Elem()
+	for i := 0; i < tv.NumField(); i++ {
+		tag := tv.Type().Field(i).Tag.Get("xsel")
+		g, err := safeBuild(tag)
+		if err != nil {
+			return fmt.Errorf("harness: tag %q: %v", tag, err)
+		}
+		r, err := safeExec(cur, &g)
+		if err != nil {
+			return fmt.Errorf("harness: tag %q: %v", tag, err)
+		}
+		if got := tv.Field(i).String(); got != r.String() {
+			return fmt.Errorf("%T (#%d): field %s `xsel:%q` holds %q, the tag's expression evaluates to %q from that node", target, k%len(c13Targets), tv.Type().Field(i).Name, tag, got, r.String())
+		}
+	}
+	return nil
+}
+
 var c13Targets = []func() any{
+	func() any {
+		type rec struct {
+			V string `xsel:"name()"`
+			N string `xsel:"count(*)"`
+			A string `xsel:"string(@*[1])"`
+			B string `xsel:"count(preceding-sibling::*)"`
+			C string `xsel:"local-name(*[last()])"`
+		}
+		return &rec{}
+	},
+	func() any {
+		type rec struct {
+			N string `xsel:"string-length(.)"`
+		}
+		return &rec{}
+	},
 	func() any {
 		type rec struct {
 			V string `xsel:"name()"`
@@ -416,37 +467,12 @@ func checkC13(c *c13Case) error {
 				continue
 			}
 			cur := d.loc.ToCur[n]
-			target := c13Targets[op.Mode%len(c13Targets)]()
-			what = fmt.Sprintf("Unmarshal(%s of document %d, %T #%d)", op.Node, op.Doc%len(docs), target, op.Mode%len(c13Targets))
-			var uerr error
-			func() {
-				defer func() {
-					if r := recover(); r != nil {
-						uerr = fmt.Errorf("panic: %v", r)
-					}
-				}()
-				uerr = xsel.Unmarshal(xsel.NodeSet{cur}, target)
-			}()
-			if uerr != nil {
-				return fmt.Errorf("step %d (%s): %v", step, what, uerr)
+			what = fmt.Sprintf("Unmarshal(%s of document %d, same-named type #%d)", op.Node, op.Doc%len(docs), op.Mode%len(c13Targets))
+			if err := checkNamedTarget(cur, op.Mode); err != nil {
+				return fmt.Errorf("step %d (%s): %v", step, what, err)
 			}
 			st.Eval(1)
 			typeds++
-			tv := reflect.ValueOf(target).Elem()
-			for i := 0; i < tv.NumField(); i++ {
-				tag := tv.Type().Field(i).Tag.Get("xsel")
-				g, err := safeBuild(tag)
-				if err != nil {
-					return fmt.Errorf("harness: tag %q: %v", tag, err)
-				}
-				r, err := safeExec(cur, &g)
-				if err != nil {
-					return fmt.Errorf("harness: tag %q: %v", tag, err)
-				}
-				if got := tv.Field(i).String(); got != r.String() {
-					return fmt.Errorf("step %d (%s): field %s `xsel:%q` holds %q, the tag's expression evaluates to %q from that node", step, what, tv.Type().Field(i).Name, tag, got, r.String())
-				}
-			}
 		case "unmarshal":
 			if op.Idx < 0 || op.Idx >= len(held) {
 				continue
